@@ -104,6 +104,8 @@ class Exec:
     # ---- evaluation ----
     def operand(self, env, op):
         op = op.strip()
+        if op.startswith("no_retag "):
+            op = op[len("no_retag "):]
         m = re.match(r"^(?:copy|move) (.*)$", op)
         if m:
             return self.place(env, m.group(1))
@@ -121,14 +123,19 @@ class Exec:
         if m:
             # promoted constant, e.g. `&Status::PASS`: its tiny body is in the same dump
             fn = strip_trailing_generics(m.group(1)).split("::")[-1]
-            pm = re.search(r"^const (?:[\w:<>]+::)?" + re.escape(fn) + r"::promoted\[" + m.group(2) + r"\]: [^\n]* = \{\n(.*?)\n\}\n",
+            own = self.header[3: self.header.index("(")]
+            pm = re.search(r"^const " + re.escape(own) + r"::promoted\[" + m.group(2) + r"\]: [^\n]* = \{\n(.*?)\n\}\n",
                            self.mir, re.M | re.S)
+            if not pm:
+                pm = re.search(r"^const (?:[\w:<>]+::)?" + re.escape(fn) + r"::promoted\[" + m.group(2) + r"\]: [^\n]* = \{\n(.*?)\n\}\n",
+                               self.mir, re.M | re.S)
             if pm:
                 am = re.search(r"_1 = ([\w:]+)::(\w+);", pm.group(1))
                 if am:
                     v = self.clike(am.group(1), am.group(2))
                     if v:
                         return v
+                return self.promoted_value(pm.group(1))
             return self.opq()
         m = re.match(r"^const (?:[\w:<>]+::)?(\w+)$", op)
         if m and m.group(1) in self.consts:
@@ -142,6 +149,19 @@ class Exec:
             return self.place(env, re.sub(r"^&(?:mut |raw (?:const|mut) )?", "", op))
         return self.opq()
 
+    def promoted_value(self, body):
+        """straight-line promoted constant (`&Struct { f: fnptr }`, `&UnitStruct`): evaluate its statements"""
+        env = {}
+        for ln in body.splitlines():
+            st = ln.strip().rstrip(";")
+            m = re.match(r"^(_\d+) = (.*)$", st)
+            if m and "->" not in m.group(2).split("(PointerCoercion")[0][-4:]:
+                try:
+                    env[m.group(1)] = self.rvalue(env, m.group(1), m.group(2))
+                except Exception:
+                    env[m.group(1)] = self.opq()
+        return env.get("_0", self.opq())
+
     def clike(self, ty, variant):
         for k, vs in self.enums.items():
             if ty.endswith(k) and variant in vs:
@@ -149,39 +169,51 @@ class Exec:
         return None
 
     def place(self, env, place):
+        """balanced-parenthesis parser for MIR places: _N | (*P) | (P.i: T) | ((P as V).i: T) | P[..]"""
         place = place.strip()
-        m = re.match(r"^\(\*(.*)\)$", place)
-        if m:
-            return self.place(env, m.group(1))               # references are transparent
-        m = re.match(r"^\(\((.+) as (\w+)\)\.(\d+): .*\)$", place)      # ((_x as Variant).i: T)
-        if m:
-            base = self.place(env, m.group(1))
-            if base[0] == "enum" and m.group(2) in base[3]:
-                pv = base[3][m.group(2)]
-                return pv
-            if base[0] == "variant" and base[2] == m.group(2):
-                return base[3][int(m.group(3))]
-            return self.proj_of(base, f"as {m.group(2)}.{m.group(3)}")
-        m = re.match(r"^\((.+)\.(\d+): (.*)\)$", place)                  # (_x.i: T) tuple / struct field by index
-        if m:
-            base = self.place(env, m.group(1))
-            if base[0] == "tuple":
-                return base[1][int(m.group(2))]
-            if base[0] == "struct":
-                vals = list(base[2].values())
-                i = int(m.group(2))
-                if i < len(vals):
-                    return vals[i]
-            if base[0] == "opaque":
-                k = (base[1], f".{m.group(2)}")
-                if k not in self.proj:
-                    self.proj[k] = self.havoc(m.group(3))
-                return self.proj[k]
-            return self.havoc(m.group(3))
         if re.match(r"^_\d+$", place):
             if place in env:
                 return env[place]
             return self.havoc(self.locs.get(place))
+        if place.startswith("(") and match_paren(place, 0) == len(place) - 1:
+            inner = place[1:-1].strip()
+            if inner.startswith("*"):
+                return self.place(env, inner[1:])               # references are transparent
+            if inner.startswith("("):
+                j = match_paren(inner, 0)
+                base_txt, rest = inner[: j + 1], inner[j + 1:]
+            else:
+                m = re.match(r"^(_\d+)(.*)$", inner, re.S)
+                if not m:
+                    return self.opq()
+                base_txt, rest = m.group(1), m.group(2)
+            m = re.match(r"^\.(\d+): (.*)$", rest, re.S)
+            if not m:
+                return self.opq()
+            idx, fty = int(m.group(1)), m.group(2)
+            dm = re.match(r"^\((.+) as (\w+)\)$", base_txt, re.S)
+            if dm and match_paren(base_txt, 0) == len(base_txt) - 1:
+                base = self.place(env, dm.group(1))
+                variant = dm.group(2)
+                if base[0] == "enum" and variant in base[3]:
+                    return base[3][variant]
+                if base[0] == "variant":
+                    if base[2] == variant and idx < len(base[3]):
+                        return base[3][idx]
+                    return self.opq()
+                return self.proj_of(base, f"as {variant}.{idx}")
+            base = self.place(env, base_txt)
+            if base[0] == "tuple":
+                return base[1][idx] if idx < len(base[1]) else self.opq()
+            if base[0] == "struct":
+                vals = list(base[2].values())
+                return vals[idx] if idx < len(vals) else self.opq()
+            if base[0] == "opaque":
+                k = (base[1], f".{idx}")
+                if k not in self.proj:
+                    self.proj[k] = self.havoc(fty)
+                return self.proj[k]
+            return self.havoc(fty)
         return self.opq()
 
     def rvalue(self, env, dst, rv):
@@ -256,9 +288,17 @@ class Exec:
             v = self.clike(m.group(1), m.group(2))
             if v:
                 return v
+            if m.group(2)[0].isupper() and not m.group(2).isupper():
+                return ("variant", m.group(1).split("::")[-1], m.group(2), [])     # unit variant of a data-carrying enum
+        m = re.match(r"^([\w:<>]+) as .*\(PointerCoercion\(ReifyFnPointer.*\)$", rv)
+        if m:
+            return ("fn", strip_trailing_generics(m.group(1)).split("::")[-1])
         m = re.match(r"^(?:move|copy) .* as \w+ \(\w+\)$", rv)
         if m:
             return self.havoc(self.locs.get(dst))
+        m = re.match(r"^([A-Z]\w*)$", rv)
+        if m and m.group(1) not in ("ZeroSized",):
+            return ("struct", m.group(1), {})          # unit struct
         return self.operand(env, rv)
 
     # ---- path enumeration ----
@@ -317,7 +357,7 @@ class Exec:
                                 kv -= 256
                             cond = f"(= {val[1]} {int_lit(kv)})"
                         seen.append(cond)
-                    if cond != "false":
+                    if cond != "false" and not contradicts_literal(cond):
                         self._go(tgt, env, pc + [cond], events, visits)
                 return
             m = re.match(r'^assert\((!?)(?:move |copy )?(.*?), "(.*?)".*\) -> \[success: (bb\d+), unwind.*\]$', st)
@@ -338,13 +378,18 @@ class Exec:
                 name = callee_suffix(callee)
                 model = None
                 for k, f in self.call_models.items():
-                    if name == k or ("::" in k and strip_trailing_generics(callee).endswith(k)):
+                    if k.startswith("re:"):
+                        if re.search(k[3:], callee):
+                            model = f
+                            break
+                    elif name == k or ("::" in k and strip_trailing_generics(callee).endswith(k)):
                         model = f
                         break
+                self.cur_events, self.cur_callee, self.cur_pc = events, callee, pc
                 res = model(self, argv) if model else self.havoc(self.locs.get(dst))
                 env[dst] = res
                 if model or name in self.log_calls:
-                    events = events + (("call", name, argv, res),)
+                    events = events + (("call", name, argv, res, len(pc), callee),)
                 return self._go(ret, env, pc, events, visits)
             m = re.match(r"^(_\d+) = (?:core::panicking::)?(?:panic\w*|unreachable_display|expect_failed|unwrap_failed)\((.*)\) -> .*$", st)
             if m:
@@ -359,6 +404,32 @@ class Exec:
                 continue
             continue    # stores through projections etc.: ignored (reads of unknown places are havoced)
         raise Untranslatable(f"block {bb} has no terminator")
+
+
+def match_paren(s, i):
+    """index of the parenthesis closing the one at s[i] (or -1)"""
+    depth = 0
+    for j in range(i, len(s)):
+        if s[j] == "(":
+            depth += 1
+        elif s[j] == ")":
+            depth -= 1
+            if depth == 0:
+                return j
+    return -1
+
+
+def contradicts_literal(cond):
+    """`(= 3 5)` / `(not (= 3 3))`-style conditions over two integer literals that are plainly false"""
+    m = re.match(r"^\(= (-?\d+|\(- \d+\)) (-?\d+|\(- \d+\))\)$", cond)
+    if m:
+        return m.group(1) != m.group(2)
+    m = re.match(r"^\(and ((?:\(not \(= (?:-?\d+|\(- \d+\)) (?:-?\d+|\(- \d+\))\)\) ?)+)\)$", cond)
+    if m:
+        for a, b in re.findall(r"\(not \(= (-?\d+|\(- \d+\)) (-?\d+|\(- \d+\))\)\)", m.group(1)):
+            if a == b:
+                return True
+    return False
 
 
 def parse_call(st):
@@ -470,6 +541,23 @@ def m_index(ex, argv):
     return ex.opq()
 
 
+def m_iter_next(ex, argv):
+    """k-th `next()` on an iterator obtained (through identity models) from a collection value v: Some(v[k]) iff
+    k < len(v). Enumerate adapters yield (k, v[k]). The position is the number of earlier `next` calls on the same
+    iterator along this path."""
+    if not argv or argv[0][0] != "opaque":
+        return m_option(ex, argv)
+    it = argv[0]
+    k = sum(1 for e in ex.cur_events if e[0] == "call" and e[1] == "next" and e[2] and e[2][0] == it)
+    n = ex.len_of(it)
+    elem = ex.proj_of(it, f"[{k}]")
+    if "Enumerate" in (ex.cur_callee or ""):
+        elem = ("tuple", [("int", str(k)), elem])
+    tag = ex.fresh("Int", "nx")
+    ex.side.append(f"(= {tag} (ite (< {k} {n}) 1 0))")
+    return ("enum", "Option", tag, {"Some": elem})
+
+
 def m_eq(ex, argv):
     if len(argv) == 2 and argv[0][0] == "enum" and argv[1][0] == "enum":
         return ("bool", f"(= {argv[0][2]} {argv[1][2]})")
@@ -485,4 +573,5 @@ def m_ne(ex, argv):
 
 COMMON_MODELS = {"len": m_len, "is_empty": m_is_empty, "index": m_index, "eq": m_eq, "ne": m_ne, "clone": m_identity, "deref": m_identity, "as_ref": m_identity, "borrow": m_identity,
                  "branch": m_try_branch, "from_residual": m_from_residual, "next": m_option,
+                 "into_iter": m_identity, "iter": m_identity, "enumerate": m_identity, "must_use": m_identity,
                  "start_record": m_result_unit, "end_record": m_result_unit}
